@@ -448,7 +448,7 @@ def jobs(tier):
         js.append(sj(4, prefixes=2, budget=1800))
         js.append(sj(5, budget=1800))
         js.append(sj(6, budget=900, required=False))
-        js.append(pj("compiled-S2-ctl-c2-d3-t2", lambda ch: s2.CtlGen(ch, 2, 3, 2, arg_tests=True), 3, {"space": "S3(b) compiled S2-ctl", "compounds<=": 2, "depth<=": 3}, budget=1800))
+        js.append(pj("compiled-S2-ctl-c2-d3-t2", lambda ch: s2.CtlGen(ch, 2, 3, 2, arg_tests=True), 3, {"space": "S3(b) compiled S2-ctl", "compounds<=": 2, "depth<=": 3}, budget=1800, required=False))
         js.append(pj("compiled-S2-expr-d2", lambda ch: s2.ExprGen(ch, 2), 3, {"space": "S3(b) compiled S2-expr", "depth<=": 2}, budget=1800))
         js.append(pj("compiled-S2-for", lambda ch: s2.ForGen(ch), 2, {"space": "S3(b) compiled S2-for"}))
     return js
